@@ -76,6 +76,21 @@ class _IntelHexRecorder:
     def puts(self, addr, data):
         capture['intelhex'].append((addr, list(getattr(data, 'd', data))))
 
+    # the other ways the library accepts bytes: same record (address, bytes)
+    def frombytes(self, data, offset=0):
+        d = list(getattr(data, 'd', data))
+        if d:
+            capture['intelhex'].append((offset, d))
+
+    def putsz(self, addr, data):
+        self.puts(addr, list(getattr(data, 'd', data)) + [0])
+
+    def __setitem__(self, addr, value):
+        if isinstance(addr, slice):
+            capture['intelhex'].append((addr.start, list(value)))
+        else:
+            capture['intelhex'].append((addr, [value]))
+
     def write_hex_file(self, f):
         f.write('<intel hex written by the third-party library>')
 
